@@ -197,8 +197,12 @@ func (w *writer) str(s obj.Str) {
 		if w.sx.StrEscapes == 2 && w.rng.Intn(12) == 0 {
 			// a line continuation contributes nothing
 			w.buf.WriteByte('\\')
-			// (a lone CR is avoided: followed by a raw LF it would form CR LF)
-			w.buf.WriteString([]string{"\n", "\r\n"}[w.rng.Intn(2)])
+			// (a lone CR only where no raw LF can follow it: the two would form CR LF)
+			if c != '\n' && w.rng.Intn(3) == 0 {
+				w.buf.WriteString("\r")
+			} else {
+				w.buf.WriteString([]string{"\n", "\r\n"}[w.rng.Intn(2)])
+			}
 		}
 		switch {
 		case c == '(' || c == ')':
@@ -222,8 +226,14 @@ func (w *writer) str(s obj.Str) {
 		case c == '\n':
 			switch {
 			case w.sx.StrEscapes == 2 && w.rng.Intn(3) == 0:
-				// a raw end-of-line marker is read as LF
-				w.buf.WriteString([]string{"\n", "\r\n"}[w.rng.Intn(2)])
+				// a raw end-of-line marker is read as LF (a lone CR only where
+				// the next byte of the value is not an LF, which could be
+				// written raw and would join it to CR LF)
+				if (i+1 >= len(s) || s[i+1] != '\n') && w.rng.Intn(3) == 0 {
+					w.buf.WriteString("\r")
+				} else {
+					w.buf.WriteString([]string{"\n", "\r\n"}[w.rng.Intn(2)])
+				}
 			case w.sx.StrEscapes >= 1 && w.rng.Intn(2) == 0:
 				octal()
 			default:
